@@ -18,6 +18,7 @@ func init() {
 }
 
 func runC17(c *Ctx) []Violation {
+	const warm = 64
 	o := world.GenOpts{MinRecs: 3, MaxRecs: 6, Encodings: false, NoSiblingContext: true}
 	w := genWorld(c, o)
 	c.Count("world.format."+w.Format, 1)
@@ -83,12 +84,18 @@ func runC17(c *Ctx) []Violation {
 	c.Note("delivery plan: %s, tail chunk %d", plan.Mode, tailChunk)
 	env.Apply()
 	rd := simio.NewReader(ww.Input, plan)
-	tr := run.Drive(ww, rd, run.Opts{Measure: true, MaxReads: len(texts) + 16, KeepOnlyLast: 2})
+	// what the Transform itself retains (any object reachable from it, wherever the library keeps
+	// it) is counted after records 16, 32, 48, 64 and after every 256th record from then on
+	retainedAt := func(delivered int) bool {
+		return (delivered <= warm && delivered%16 == 0) || (delivered > warm && delivered%256 == 0)
+	}
+	tr := run.Drive(ww, rd, run.Opts{Measure: true, MaxReads: len(texts) + 16, KeepOnlyLast: 2, RetainedAt: retainedAt})
 	c.Events += int64(rd.Stats.Reads + len(tr.Entries))
 	c.SigMix(ww.Hash())
 	c.SigMix(plan.Sig())
-	const warm = 64
 	maxS, maxE := 0, 0
+	maxTree := 0
+	warmRetained, lastRetained, lastRetainedAt := 0, 0, 0
 	delivered := 0
 	var firstBadS, firstBadE = -1, -1
 	var lastS, lastE int
@@ -98,6 +105,19 @@ func runC17(c *Ctx) []Violation {
 			continue
 		}
 		delivered++
+		if e.Reach > maxTree {
+			maxTree = e.Reach
+		}
+		if e.Retained > 0 {
+			if delivered <= warm {
+				if e.Retained > warmRetained {
+					warmRetained = e.Retained
+				}
+			} else {
+				lastRetained, lastRetainedAt = e.Retained, delivered
+				c.Count("retained-objects.measured-after-warm-up", 1)
+			}
+		}
 		if delivered <= warm {
 			if e.Reach > maxS {
 				maxS = e.Reach
@@ -143,6 +163,14 @@ func runC17(c *Ctx) []Violation {
 			v.What = "xml: character data between records is attached to the enclosing element and never released, so the reachable tree grows by one text node per record"
 		}
 		return []Violation{v}
+	}
+	// What the Transform retains as a whole. Records of different prototypes have trees of different
+	// sizes, and the measurements are taken at a few records only: the allowance is twice the largest
+	// tree any record had, plus 64. One more retained object per delivered record exceeds it after a
+	// few hundred records.
+	if warmRetained > 0 && lastRetainedAt >= warm+512 && lastRetained > warmRetained+2*maxTree+64 {
+		return []Violation{viol("C17.retained", fmt.Sprintf("%s: what the Transform retains grows with the number of records delivered (%d objects reachable from it within the warm-up, %d after record %d)", w.Format, warmRetained, lastRetained, lastRetainedAt),
+			append(det, fmt.Sprintf("objects reachable from the Transform (pointers followed, map entries and slice elements counted): at most %d after records 16..64, %d after record %d; largest record tree %d nodes", warmRetained, lastRetained, lastRetainedAt, maxTree))...)}
 	}
 	return nil
 }
